@@ -87,5 +87,5 @@ def queries(tier):
     if tier == "thorough":
         qs += [conv(w) for w in (1, 2, 3, 5, 7, 12, 16, 17, 31, 33, 48, 63, 65, 72, 96, 128)]
         qs += [sse_sparse(w, 2, g) for w in (8, 16) for g in range(w * 2 // 4)]  # measured: 61 s (8x2) / 101 s (16x2) per query; 32x2 does not finish in 300 s
-        qs += [elem(k, w, 8) for k in (1, 2, 3, 4, 5) for w in (4, 8, 16, 32, 64, 128)]
+        qs += [elem(k, w, 8, 900) for k in (1, 2, 3, 4, 5) for w in (4, 8, 16, 32, 64)] + [elem(k, 128, 8, 900) for k in (1, 4, 5)]   # 16-bit residual kernels at 128x8 did not finish in 300 s under load
     return qs
